@@ -52,6 +52,13 @@ package store
 //@ pure sameLinks(s BalanceStore) bool = s.linked == old(s.linked) && s.acct == old(s.acct) && s.reg == old(s.reg)
 //@ pure sameDeposits(s BalanceStore) bool = s.adeposit == old(s.adeposit) && s.tdeposit == old(s.tdeposit)
 
+// Identity invariants (C15: the payment service cuts a 12-character short id out of every linked node id): registered
+// node ids are verified identities - a 128-digit node id or a 42-character address - and only registered nodes get linked.
+// They are established where ids enter the store (pool connect, payment AddNode) and rest on the other endpoints not
+// registering or linking anything.
+//@ pure regInv(s Store) bool = forall id NodeID :: s.reg[id] ==> len(id) >= 42
+//@ pure linkInv(s Store) bool = forall id NodeID :: s.linked[id] ==> len(id) >= 42
+
 // ---- BalanceStore ---------------------------------------------------------------------
 
 //@ interface store.BalanceStore.GetNodeBalance(nodeID) (result, err)
@@ -111,7 +118,13 @@ package store
 //@ ensures [errkind]    plainError(err)
 //@ modifies nothing
 
+// hasID(l, k): the id k is an element of l
+//@ pure hasID(l []NodeID, k NodeID) bool = exists p int :: off(l) <= p && p < off(l) + len(l) && elems(l)[p] == k
+
 //@ interface store.AccountStore.GetAccountNodes(account) (result, err)
+//@ ensures [only-linked] err == nil ==> forall p int :: off(result) <= p && p < off(result) + len(result) ==> this.linked[elems(result)[p]] && this.acct[elems(result)[p]] == account
+//@ ensures [complete]    err == nil ==> forall k NodeID :: this.linked[k] && this.acct[k] == account ==> hasID(result, k)
+//@ ensures [errkind]     plainError(err)
 //@ modifies nothing
 
 // ---- NonceStore -----------------------------------------------------------------------
